@@ -50,6 +50,10 @@ class CachingStreamWrapper(io.IOBase):
 
         read_from_raw = self._raw.read(n)
 
+        if read_from_raw is None:
+            # non-blocking stream has nothing to offer at the moment
+            return read_from_cache or None
+
         self._cache.write(read_from_raw)
 
         return read_from_cache + read_from_raw
